@@ -18,7 +18,7 @@ func init() {
 	Register("C23", &Info{
 		Run:   runC23,
 		Quick: 7500, Thor: 1000000,
-		Rule: "a world = one generated TLS 1.3-only QUIC ClientHello spec with quic_transport_parameters (drawn suites, groups incl. ones without a share to force HelloRetryRequest, ALPN, GREASE, transport parameters) on a UQUICConn, paired with the repository's or the std library's QUIC server and driven through Start / HandleData / NextEvent by a pump task that delivers CRYPTO data in drawn chunk sizes and serves one event per step from the client or the server in a drawn interleaving (draining, eager: the server's answer is handed to HandleData before NextEvent has reported QUICNoEvent, mixed per step); after a Start that failed, HandleData and SetTransportParameters are called too; 35% of the fault-free worlds are the second connection of a resumption history (a first QUIC connection completes, the server sends a session ticket, the spec ends in pre_shared_key); Start is given a cancelable context or one that can never be cancelled (Background, WithoutCancel); faults: context cancelled at a drawn scheduler step, Close at a drawn pump iteration, server-side failure (no common ALPN), unbuildable ClientHello (PSK parrot without session, Config.Rand failing at its n-th read, unsupported curve in a key share); oracle: fault-free worlds complete on both sides; the ClientHello (first Initial-level CRYPTO data) parses under the strict grammar with an empty legacy session id; client events: per level the write secret precedes the read secret, the application read secret comes only after HandshakeDone, peer transport parameters are delivered exactly once and equal what the server set; Start, HandleData and Close return in every world (a world in which a task is blocked forever is the violation); non-trivial = >=1 HandleData (failure stratum: the injected fault fired); distinct = (spec, server, chunking, fault)",
+		Rule: "a world = one generated TLS 1.3-only QUIC ClientHello spec with quic_transport_parameters (drawn suites, groups incl. ones without a share to force HelloRetryRequest, ALPN, GREASE, transport parameters) on a UQUICConn, paired with the repository's or the std library's QUIC server and driven through Start / HandleData / NextEvent by a pump task that delivers CRYPTO data in drawn chunk sizes (40%: out of one receive buffer that is overwritten right after every HandleData call) and serves one event per step from the client or the server in a drawn interleaving (draining, eager: the server's answer is handed to HandleData before NextEvent has reported QUICNoEvent, mixed per step); after a Start that failed, HandleData and SetTransportParameters are called too; 35% of the fault-free worlds are the second connection of a resumption history (a first QUIC connection completes, the server sends a session ticket, the spec ends in pre_shared_key); Start is given a cancelable context or one that can never be cancelled (Background, WithoutCancel); faults: context cancelled at a drawn scheduler step, Close at a drawn pump iteration, server-side failure (no common ALPN), unbuildable ClientHello (PSK parrot without session, Config.Rand failing at its n-th read, unsupported curve in a key share); oracle: fault-free worlds complete on both sides; the ClientHello (first Initial-level CRYPTO data) parses under the strict grammar with an empty legacy session id; client events: per level the write secret precedes the read secret, the application read secret comes only after HandshakeDone, peer transport parameters are delivered exactly once and equal what the server set; Start, HandleData and Close return in every world (a world in which a task is blocked forever is the violation); non-trivial = >=1 HandleData (failure stratum: the injected fault fired); distinct = (spec, server, chunking, fault)",
 		Assumptions: []string{"the QUIC layer (packet protection, CRYPTO frames, CONNECTION_CLOSE) is the harness's pump: only the TLS-QUIC interface of RFC 9001 is exercised",
 			"no compatibility CCS can exist in QUIC (there is no record layer); the clause is covered by checking that only handshake bytes appear in CRYPTO data"},
 		Real: []string{"utls UQUICConn / UConn handshake from /repo", "utls QUICServer or std crypto/tls QUICServer"},
@@ -157,6 +157,8 @@ func runC23(c *Ctx) {
 	pumpOrder := ch.U64("pump-order")
 	afterFailedStart := ch.Pick(4, "after-failed-start")
 	chunk := []int{0, 1, 7, 100, 1000}[ch.Pick(5, "chunk")]
+	recycle := ch.Bool(40, "recycled-receive-buffer")
+	var rbuf [2048]byte
 	ctxKind := ch.Pick(3, "ctx-kind")
 	forceHRR := ch.Bool(30, "hrr") && strings.Contains(desc, "CurveP384") && !strings.Contains(desc, "groups=[CurveP384")
 	serverTP := []byte("server-transport-params-" + fmt.Sprint(ch.Pick(1000, "stp")))
@@ -320,7 +322,24 @@ func runC23(c *Ctx) {
 			srvFailed = true
 		}
 		defer srv.Close()
-		deliver := func(to func(int, []byte) error, level int, data []byte) error {
+		deliver := func(to0 func(int, []byte) error, level int, data []byte) error {
+			to := to0
+			if recycle {
+				// a receive buffer that is reused: the piece is copied into it for the call and the
+				// buffer is overwritten as soon as HandleData has returned
+				to = func(l int, b []byte) error {
+					for {
+						n := copy(rbuf[:], b)
+						err := to0(l, rbuf[:n])
+						for i := range rbuf[:n] {
+							rbuf[i] = 0xa5
+						}
+						if b = b[n:]; err != nil || len(b) == 0 {
+							return err
+						}
+					}
+				}
+			}
 			if chunk == 0 || len(data) <= chunk {
 				return to(level, data)
 			}
